@@ -11,7 +11,7 @@ CLAIMED = {
     'C04': dict(engine='execsim', design='4.1',
                 technique='deterministic simulation: seeded override/query histories x 16 hash seeds, refinement against re-translation of the edited workbook in a pristine foreign process',
                 text='Seeded search over histories of set_cells/get_cell/get_cells/get_sheet calls (1-3 logical clients, 1-2 executors over one generated class, operation-level interleaving, 16 string-hash seeds) on generated workbooks; after every query the response must equal what a fresh Parser+Executor report for the workbook with each overridden cell replaced by its most recent constant (reference execution in a pristine process with another hash seed). Exploration, not proof: a clean batch is evidence over the sampled histories only.',
-                note='Trusts openpyxl to write the edited workbook faithfully (a read-back self-check discards runs whose planted constants do not survive the xlsx round trip), the re-translation path itself (functional defects shared by both paths cancel out by design), and the generator bounds (<=3 sheets, <=48 cells, <=30 operations). One recorded finding (whole-column references do not see overrides past the used range) is listed in known_findings.json and matched only after minimisation plus a counterfactual re-run. The minimised plans of the two repaired defects are replayed on every run (regress/).'),
+                note='Trusts openpyxl to write the edited workbook faithfully (a read-back self-check discards runs whose planted constants do not survive the xlsx round trip), the re-translation path itself (functional defects shared by both paths cancel out by design), and the generator bounds (<=3 sheets, <=48 cells, <=30 operations). The three defects this check found on the original tree (hash-order-dependent survivor of two writes, overridden formula still evaluated, whole-column references blind to rows appended by set_cells) were repaired in 10b93f2, 52e7894 and bc17b30; their minimised plans are replayed on every run (regress/). No finding is currently recorded for this property.'),
     'C08': dict(engine='execsim', design='4.2',
                 technique='deterministic simulation: seeded query histories over fixed overrides, every response compared with an isolated single query on a pristine executor in a foreign process',
                 text='Overrides are established one write per cell - all at once or, on half of the runs, in up to three epochs separated by query bursts - and 6-80 queries are issued from 1-3 logical clients through get_cell/get_cells/get_sheet with every addressing spelling, repeated and permuted, with evaluation failures in the middle and (on some runs) a simulated clock step between two bursts; each response must equal the value of one get_cell on a pristine executor given the overrides in force in one batch (other process, other hash seed, same instant), get_sheet must have exactly the spec-derived shape, and sizes must be unchanged afterwards.',
